@@ -22,7 +22,7 @@ ASSUMPTIONS = [
     "objects bound to the same file in different buffered states are not generated (documented as unsupported)",
 ]
 STRATA = ["default_cap", "small_cap"]
-PER = {"quick": {"default_cap": 150, "small_cap": 40}, "thorough": {"default_cap": 4000, "small_cap": 800}}
+PER = {"quick": {"default_cap": 500, "small_cap": 150}, "thorough": {"default_cap": 4000, "small_cap": 800}}
 STEPS = {"quick": 35, "thorough": 60}
 
 
